@@ -150,6 +150,10 @@ func genHandFileOpt(t *rapid.T, o handOpts) (root *mnode, data []byte, writer, d
 		var c []byte
 		if !o.NoEmpty && rapid.IntRange(0, 2).Draw(t, "empty") == 0 {
 			pattern += "0"
+		} else if allowOldStyle && i > 0 && rapid.IntRange(0, 4).Draw(t, "repeat") == 0 {
+			// the same chunk as an earlier one (a repeated record, a run of zeros): the same block linked again
+			c = append([]byte{}, chunks[rapid.IntRange(0, i-1).Draw(t, "repeatOf")]...)
+			pattern += "r"
 		} else {
 			if big {
 				c = lcgBytes(rapid.SampledFrom([]int{9000, 16384, 20000, 32768, 65536, 70000}).Draw(t, "bigClen"), byte(i+1), 0)
@@ -245,7 +249,7 @@ func genHandFileOpt(t *rapid.T, o handOpts) (root *mnode, data []byte, writer, d
 	}
 	noBlockSizes = noBlockSizes || rawNoBlockSizes
 	writer = fmt.Sprintf("hand-%s-pb=%v-l%d-bs=%v-fs=%v-raw=%d-ts=%d-spare=%v-mixed=%v", pattern, pbLeaves, levels, !noBlockSizes, !noFileSize, rawTyped, tsizeStyle, spareBlockSize, mixed)
-	desc = fmt.Sprintf("hand-made file chunks=%s (0 = empty) pbLeaves=%v levels=%d blocksizes=%v filesize=%v rawTyped=%d (0 none, 1 root, 2 interior, 3 leaves, 4 all) tsizeStyle=%d (0 content, 1 cumulative, 2 block-local, 3 absent) spareBlockSize=%v len=%d", pattern, pbLeaves, levels, !noBlockSizes, !noFileSize, rawTyped, tsizeStyle, spareBlockSize, len(data))
+	desc = fmt.Sprintf("hand-made file chunks=%s (0 = empty, r = repeats an earlier chunk) pbLeaves=%v levels=%d blocksizes=%v filesize=%v rawTyped=%d (0 none, 1 root, 2 interior, 3 leaves, 4 all) tsizeStyle=%d (0 content, 1 cumulative, 2 block-local, 3 absent) spareBlockSize=%v len=%d", pattern, pbLeaves, levels, !noBlockSizes, !noFileSize, rawTyped, tsizeStyle, spareBlockSize, len(data))
 	return
 }
 
